@@ -223,7 +223,123 @@ theorem C18_pubkey_verify_sound {Key : Type} (sha256 : Bytes → Bytes) (rsaVeri
     | err => simp at h
     | panic => simp at h
 
-/-! ### non-vacuity -/
+/-! ### a `PublicKey` value under a history: only the current fields count -/
+
+section history
+variable {Key T : Type} (sha256 : Bytes → Bytes) (rsaVerify : Key → Bytes → Bytes → Bool) (mojangKey : Key)
+  (expired : T → Bool)
+
+/-- the fields after a history are the fold of the field updates -/
+theorem C18_history_fields (v : PubKeyVal T) (hs : List (PubKeyStep T)) :
+    (pubKeyRun sha256 rsaVerify mojangKey expired v hs).2 = hs.foldl pubKeyApply v := by
+  induction hs generalizing v with
+  | nil => rfl
+  | cons st rest ih =>
+    cases st <;> simp only [pubKeyRun, List.foldl_cons, ih] <;> rfl
+
+/-- History independence: a `Verify` after ANY history of `ReadFrom`s, field assignments and earlier `Verify`s
+    returns what `Verify` returns on the fields as they are now — nothing is remembered from earlier calls. -/
+theorem C18_history_independent (v : PubKeyVal T) (hs : List (PubKeyStep T)) :
+    (pubKeyRun sha256 rsaVerify mojangKey expired v (hs ++ [.verify])).1 =
+      (pubKeyRun sha256 rsaVerify mojangKey expired v hs).1 ++
+        [pubKeyVerifyNow sha256 rsaVerify mojangKey expired (hs.foldl pubKeyApply v)] := by
+  induction hs generalizing v with
+  | nil => simp [pubKeyRun]
+  | cons st rest ih =>
+    cases st <;> simp only [List.cons_append, pubKeyRun, List.foldl_cons, ih, List.cons_append] <;> rfl
+
+/-- two histories that leave the same fields give the same answer to the next `Verify` -/
+theorem C18_history_same_fields (v w : PubKeyVal T) (hs hs' : List (PubKeyStep T))
+    (h : hs.foldl pubKeyApply v = hs'.foldl pubKeyApply w) :
+    (pubKeyRun sha256 rsaVerify mojangKey expired v (hs ++ [.verify])).1.getLast? =
+      (pubKeyRun sha256 rsaVerify mojangKey expired w (hs' ++ [.verify])).1.getLast? := by
+  rw [C18_history_independent, C18_history_independent, h]
+  simp
+
+/-- after any history, `Verify` says true only for an unexpired value whose CURRENT key and signature pass RSA
+    verification under the embedded key -/
+theorem C18_history_sound (v : PubKeyVal T) (hs : List (PubKeyStep T))
+    (h : (pubKeyRun sha256 rsaVerify mojangKey expired v (hs ++ [.verify])).1.getLast? = some (.ok true)) :
+    let now := hs.foldl pubKeyApply v
+    expired now.expiresAt = false ∧ ∃ der text, now.pubKey = some der ∧ pemText der = .ok text ∧
+      rsaVerify mojangKey (sha256 text) now.signature = true := by
+  rw [C18_history_independent] at h
+  simp only [List.getLast?_append, List.getLast?_singleton, Option.some_or, Option.some.injEq] at h
+  intro now
+  obtain ⟨h1, enc, text, h2, h3, h4⟩ :=
+    C18_pubkey_verify_sound sha256 rsaVerify mojangKey _ _ _ h
+  refine ⟨h1, enc, text, ?_, h3, h4⟩
+  show (hs.foldl pubKeyApply v).pubKey = some enc
+  cases hk : (hs.foldl pubKeyApply v).pubKey with
+  | none => rw [hk] at h2; simp at h2
+  | some d => rw [hk] at h2; simp only [Res.ok.injEq] at h2; rw [h2]
+
+end history
+
+/-! ### the server side of the handshake hashes the secret the client chose -/
+
+/-- Whenever `Encrypt` gets as far as asking the session server, the hash it asks about is the client-side
+    digest (`bot.authDigest`, server id "") of the very plaintext the peer encrypted as the shared secret — for a
+    secret of ANY length the server accepts — and the server did accept that secret as an AES key. -/
+theorem C18_handshake_agrees (sha1 : Bytes → Bytes) (publicKey : Bytes) (i : HandshakeIn) (hash : String) (r : Res Unit)
+    (h : serverEncrypt sha1 publicKey i = (some hash, r)) :
+    ∃ secret, i.secret = .ok secret ∧ aesKeyOk secret = true ∧
+      authDigest sha1 [] secret publicKey = .ok hash := by
+  unfold serverEncrypt at h
+  cases hid : i.idOk <;> simp only [hid, Bool.not_false, Bool.not_true, if_true, if_false, Bool.false_eq_true] at h
+  · simp at h
+  cases hsc : i.scanOk <;> simp only [hsc, Bool.not_false, Bool.not_true, if_true, if_false, Bool.false_eq_true] at h
+  · simp at h
+  cases ht : i.token with
+  | err => rw [ht] at h; simp at h
+  | panic => rw [ht] at h; simp at h
+  | ok b =>
+    cases b with
+    | false => rw [ht] at h; simp at h
+    | true =>
+      rw [ht] at h
+      cases hs : i.secret with
+      | err => rw [hs] at h; simp at h
+      | panic => rw [hs] at h; simp at h
+      | ok secret =>
+        rw [hs] at h
+        cases ha : aesKeyOk secret
+        · simp [ha] at h
+        · simp only [ha, Bool.not_true, Bool.false_eq_true, if_false] at h
+          refine ⟨secret, rfl, ha, ?_⟩
+          rw [← C18_sides_agree]
+          cases hd : authDigestServer sha1 [] secret publicKey with
+          | ok x => rw [hd] at h; simp at h; rw [h.1]
+          | err => rw [hd] at h; simp at h
+          | panic => rw [hd] at h; simp at h
+
+/-- … and therefore, for a non-zero digest, it is Java's rendering of SHA-1("" ‖ secret ‖ key) -/
+theorem C18_handshake_java (sha1 : Bytes → Bytes) (publicKey : Bytes) (i : HandshakeIn) (hash : String) (r : Res Unit)
+    (h : serverEncrypt sha1 publicKey i = (some hash, r)) :
+    ∃ secret, i.secret = .ok secret ∧
+      ((∃ b ∈ sha1 ([] ++ secret ++ publicKey), b ≠ 0#8) → hash = javaHex (toSigned (sha1 ([] ++ secret ++ publicKey)))) := by
+  obtain ⟨secret, h1, _, h3⟩ := C18_handshake_agrees sha1 publicKey i hash r h
+  refine ⟨secret, h1, fun hnz => ?_⟩
+  rw [C18_digest sha1 [] secret publicKey hnz] at h3
+  exact (Res.ok.inj h3).symm
+
+/-! ### non-vacuity (histories, handshake) -/
+
+/-- a history in which a genuine key is verified and the value is then refilled with a forged signature:
+    the second `Verify` says false (RSA accepts exactly the signature `[1]`) -/
+example :
+    (pubKeyRun (Key := Unit) (T := Bool) (fun t => t) (fun _ _ s => s == [0x01#8]) () (fun t => t)
+      { expiresAt := true, pubKey := none, signature := [] }
+      [.readFrom (some { expiresAt := false, key := .rsa [0x30#8], signature := [0x01#8] }), .verify,
+       .readFrom (some { expiresAt := false, key := .rsa [0x31#8], signature := [0x02#8] }), .verify]).1
+      = [.ok true, .ok false] := by decide
+
+/-- a 24-byte secret is accepted and hashed as it is -/
+example : ∃ h, (serverEncrypt (fun x => x) [0x07#8]
+      { idOk := true, scanOk := true, token := .ok true, secret := .ok (List.replicate 24 0x11#8), httpOk := true }).1 = some h :=
+  ⟨_, rfl⟩
+
+
 
 /-- the hypotheses of `C18_uuid` are met -/
 example : ∃ md5 : Bytes → Bytes, ∀ x, (md5 x).length = 16 := ⟨fun _ => List.replicate 16 0#8, fun _ => rfl⟩
